@@ -17,8 +17,8 @@ type gen struct {
 	// expression-level findings (integral floats, unary minus on non-literals, AND/OR mixed
 	// without parentheses, bound parameters); used where the clause structure of statements
 	// and sources is the subject and expressions are covered by the expression parts.
-	plain  bool
-	r      *rand.Rand
+	plain bool
+	r     *rand.Rand
 	// sch != nil: typed expressions over the columns of a loaded measurement (phase
 	// cluster-vs-single, gen_schema.go); comparison() and arith() then draw their operands
 	// from the schema, the AND/OR/parenthesis structure stays the one generated here
